@@ -876,7 +876,8 @@ def formula_grammar(table):
         return formula
     grouped_mixture = grouped_mixture.setParseAction(convert_mixture)
 
-    mixture << (compound | grouped_mixture)
+    # Try the mixture first: '(1 L H2O@1 // ...)' starts like a compound '1 L...'
+    mixture << (grouped_mixture | compound)
     # Note: try mixtures first, otherwise "5 L H2O@1" fails with unknown
     # element L before the litre unit is considered.
     formula = (ungrouped_mixture | compound | grouped_mixture)
